@@ -22,14 +22,40 @@ int main(int argc, char **argv)
 		static const char *NAMES[] = { "openssl", "gnutls", "OpenSSL", "OPENSSL", "GnuTLS", "GNUTLS", "openss", "gnutl", "openssl ", " openssl",
 			"opensslx", "gnutlss", "", "mbedtls", "any", "none", "gnutls\n", "open", "g", "openssl,gnutls", "wincrypt", "o" };
 		for (int startp = 0; startp < 2; startp++) {
-			for (size_t i = 0; i < sizeof(NAMES) / sizeof(*NAMES); i++) {
-				char before[32], after[32];
+			/* the fixed near-misses, then each exact name decorated with one character in front, behind or both (quotes as an env file
+			 * would pass them, blanks, separators, brackets), with a typical prefix/suffix, and with one character doubled or dropped */
+			static const char DECO[] = "\"'` \t\n\r,;:=/.-_\\()[]{}<>0x*?#@!~+&|^%$";
+			static const char *EXACT[] = { "openssl", "gnutls" };
+			static const char *AFFIX[][2] = { { "lib", "" }, { "", "3" }, { "", ".so" }, { "crypto=", "" }, { "JWT_CRYPTO=", "" }, { "", "-3.0" }, { "", "/" }, { "./", "" }, { "", "\\0" }, { "\xef\xbb\xbf", "" } };
+			size_t nfixed = sizeof(NAMES) / sizeof(*NAMES), ndeco = sizeof(DECO) - 1, naff = sizeof(AFFIX) / sizeof(AFFIX[0]);
+			size_t total = nfixed + 2 * (ndeco * 3 + naff + 14);
+			for (size_t i = 0; i < total; i++) {
+				char before[32], after[32], nm[64];
 				int rc;
+				if (i < nfixed) snprintf(nm, sizeof(nm), "%s", NAMES[i]);
+				else {
+					size_t q = i - nfixed, per = ndeco * 3 + naff + 14, w = q % per;
+					const char *ex = EXACT[q / per];
+					size_t el = strlen(ex);
+					if (w < ndeco * 3) {
+						char c = DECO[w / 3];
+						switch (w % 3) {
+						case 0: snprintf(nm, sizeof(nm), "%c%s", c, ex); break;
+						case 1: snprintf(nm, sizeof(nm), "%s%c", ex, c); break;
+						default: snprintf(nm, sizeof(nm), "%c%s%c", c, ex, c); break;
+						}
+					} else if (w < ndeco * 3 + naff) snprintf(nm, sizeof(nm), "%s%s%s", AFFIX[w - ndeco * 3][0], ex, AFFIX[w - ndeco * 3][1]);
+					else {
+						size_t v = w - ndeco * 3 - naff, pos = v % 7 < el ? v % 7 : el - 1;
+						if (v < 7) { snprintf(nm, sizeof(nm), "%.*s%c%s", (int)pos, ex, ex[pos], ex + pos); }		/* one character doubled */
+						else { snprintf(nm, sizeof(nm), "%.*s%s", (int)pos, ex, ex + pos + 1); }			/* one character dropped */
+					}
+				}
 				vh_set_prov(startp);
 				snprintf(before, sizeof(before), "%s", jwt_get_crypto_ops());
-				rc = jwt_set_crypto_ops(NAMES[i]);
+				rc = jwt_set_crypto_ops(nm);
 				snprintf(after, sizeof(after), "%s", jwt_get_crypto_ops());
-				printf("[\"O\",\"name\","); vh_put_jstr(stdout, NAMES[i]); printf(",\"%s\",%d,\"%s\",%d]\n", before, rc, after, (int)jwt_get_crypto_ops_t());
+				printf("[\"O\",\"name\","); vh_put_jstr(stdout, nm); printf(",\"%s\",%d,\"%s\",%d]\n", before, rc, after, (int)jwt_get_crypto_ops_t());
 			}
 			static const int IDS[] = { -2, -1, 0, 1, 2, 3, 4, 5, 6, 7, 8, 9, 10, 11, 16, 17, 18, 33, 34, 129, 130, 255, 256, 257, 258, 513, 514, 65537, 65538,
 				0x1000001, 0x1000002, 0x40000001, 0x40000002, -6, -7, -14, -15, -254, -255, -65534, -65535, 919192, 919193, 919194,
